@@ -2,6 +2,7 @@ package transaction
 
 import (
 	"fmt"
+	"github.com/ovn-org/libovsdb/mapper"
 	"reflect"
 	"strings"
 	"time"
@@ -484,65 +485,18 @@ func (t *Transaction) Wait(table string, timeout *int, where []ovsdb.Condition, 
 
 Loop:
 	for {
-		var filteredRows []ovsdb.Row
 		foundRowModels, err := t.rowsFromTransactionCacheAndDatabase(table, where)
 		if err != nil {
 			return ovsdb.ResultFromError(err)
 		}
 
-		m := dbModel.Mapper
-		for _, rowModel := range foundRowModels {
-			info, err := dbModel.NewModelInfo(rowModel)
-			if err != nil {
-				return ovsdb.ResultFromError(err)
-			}
-
-			foundMatch := true
-			for _, column := range columns {
-				columnSchema := info.Metadata.TableSchema.Column(column)
-				for _, r := range rows {
-					i, err := dbModel.NewModelInfo(model)
-					if err != nil {
-						return ovsdb.ResultFromError(err)
-					}
-					err = dbModel.Mapper.GetRowData(&r, i)
-					if err != nil {
-						return ovsdb.ResultFromError(err)
-					}
-					x, err := i.FieldByColumn(column)
-					if err != nil {
-						return ovsdb.ResultFromError(err)
-					}
-
-					// check to see if field value is default for given rows
-					// if it is default (not provided) we shouldn't try to compare
-					// for equality
-					if ovsdb.IsDefaultValue(columnSchema, x) {
-						continue
-					}
-					y, err := info.FieldByColumn(column)
-					if err != nil {
-						return ovsdb.ResultFromError(err)
-					}
-					if !reflect.DeepEqual(x, y) {
-						foundMatch = false
-					}
-				}
-			}
-
-			if foundMatch {
-				resultRow, err := m.NewRow(info)
-				if err != nil {
-					return ovsdb.ResultFromError(err)
-				}
-				filteredRows = append(filteredRows, resultRow)
-			}
-
+		// RFC 7047: the rows selected by "where", restricted to "columns",
+		// are compared as a set with "rows"
+		equal, err := t.waitRowsEqual(table, model, foundRowModels, columns, rows)
+		if err != nil {
+			return ovsdb.ResultFromError(err)
 		}
-
-		if until == "==" && len(filteredRows) == len(rows) {
-			return ovsdb.OperationResult{}
-		} else if until == "!=" && len(filteredRows) != len(rows) {
+		if (until == "==") == equal {
 			return ovsdb.OperationResult{}
 		}
 
@@ -559,6 +513,98 @@ Loop:
 	}
 
 	return ovsdb.ResultFromError(&ovsdb.TimedOut{})
+}
+
+// waitRowsEqual tells whether the selected rows and the expected rows are the
+// same set of rows, each expected row being compared on those of the given
+// columns (all columns of the table if none are given) that it provides
+func (t *Transaction) waitRowsEqual(table string, sample model.Model, selected map[string]model.Model, columns []string, rows []ovsdb.Row) (bool, error) {
+	dbModel := t.Model
+	if len(columns) == 0 {
+		info, err := dbModel.NewModelInfo(sample)
+		if err != nil {
+			return false, err
+		}
+		for column := range info.Metadata.TableSchema.Columns {
+			columns = append(columns, column)
+		}
+	}
+	value := func(info *mapper.Info, column string) (interface{}, error) {
+		v, err := info.FieldByColumn(column)
+		if err != nil {
+			return nil, err
+		}
+		// an unset set or map and an empty one are the same value
+		if rv := reflect.ValueOf(v); (rv.Kind() == reflect.Slice || rv.Kind() == reflect.Map) && rv.Len() == 0 {
+			return nil, nil
+		}
+		return v, nil
+	}
+	// matches[i][j]: selected row i agrees with expected row j on the columns it provides
+	var selectedInfos, expectedInfos []*mapper.Info
+	for _, m := range selected {
+		info, err := dbModel.NewModelInfo(m)
+		if err != nil {
+			return false, err
+		}
+		selectedInfos = append(selectedInfos, info)
+	}
+	for i := range rows {
+		m, err := dbModel.NewModel(table)
+		if err != nil {
+			return false, err
+		}
+		info, err := dbModel.NewModelInfo(m)
+		if err != nil {
+			return false, err
+		}
+		if err := dbModel.Mapper.GetRowData(&rows[i], info); err != nil {
+			return false, err
+		}
+		expectedInfos = append(expectedInfos, info)
+	}
+	agree := func(sel *mapper.Info, j int) (bool, error) {
+		for _, column := range columns {
+			if _, provided := rows[j][column]; !provided {
+				continue
+			}
+			x, err := value(expectedInfos[j], column)
+			if err != nil {
+				return false, err
+			}
+			y, err := value(sel, column)
+			if err != nil {
+				return false, err
+			}
+			if !reflect.DeepEqual(x, y) {
+				return false, nil
+			}
+		}
+		return true, nil
+	}
+	expectedSeen := make([]bool, len(rows))
+	for _, sel := range selectedInfos {
+		found := false
+		for j := range rows {
+			ok, err := agree(sel, j)
+			if err != nil {
+				return false, err
+			}
+			if ok {
+				found = true
+				expectedSeen[j] = true
+			}
+		}
+		if !found {
+			return false, nil
+		}
+	}
+	for _, seen := range expectedSeen {
+		if !seen {
+			return false, nil
+		}
+	}
+	return true, nil
 }
 
 func (t *Transaction) Commit(durable bool) ovsdb.OperationResult {
